@@ -6,13 +6,13 @@ ALL = ["C%02d" % i for i in range(1, 21)]
 
 # id -> (engine, technique, level text, level note, design ref)
 CHECKS = {
- "C01": ("pbt", "seeded proptest over generated document trees x traversal-target grammar, oracle = planted-secret non-disclosure + error status for climbing targets",
+ "C01": ("pbt+net", "seeded proptest over generated document trees x traversal-target grammar, oracle = planted-secret non-disclosure + error status for climbing targets",
          "Exploration: every run materialises 32 (quick) / 640 (thorough) generated trees with uniquely marked secrets at every ancestor level, beside owner-linked outside directories and in look-alike sibling directories, and sends 1,500 / 4,000 grammar-generated targets per tree (half of them climb exactly to a level and name a secret there) with and without Range headers through both request entry points of the real code. A negative ('no target discloses') cannot be proven by sampling; the grammar covers the spellings the statement names.",
          "Secrets consist of marker text only, so any 12-byte window of a secret in a response is a disclosure; Range slices of a secret shorter than 12 bytes would escape; in-process route with cwd = served root.", "DESIGN.md §4 C01"),
- "C02": ("pbt", "seeded proptest over generated document trees, every derived request path judged by a filesystem reference lookup (M-LOOKUP) and an extension table (M-MIME), plus metamorphic query/fragment and legacy-entry differentials",
+ "C02": ("pbt+net", "seeded proptest over generated document trees, every derived request path judged by a filesystem reference lookup (M-LOOKUP) and an extension table (M-MIME), plus metamorphic query/fragment and legacy-entry differentials",
          "Exploration: 128 (quick) / 3,000 (thorough) generated trees; for each tree every file, directory (with/without slash), .html fallback, special route and six kinds of near miss is requested with four suffixes through the real Server::process; bytes, length, type and 404 bodies are compared with the harness's own lookup over std::fs. A failing tree is shrunk by proptest. Sampling of trees, exhaustive over the derived paths of each tree.",
          "Trusts std::fs for the reference lookup and the harness's transcription of the extension table; tolerances for the cases the statement leaves open are listed in evidence assumptions.", "DESIGN.md §4 C02"),
- "C03": ("pbt", "seeded proptest over (file length, Range header) with an independent RFC 7233 reference model (M-RANGE)",
+ "C03": ("pbt+net", "seeded proptest over (file length, Range header) with an independent RFC 7233 reference model (M-RANGE)",
          "Exploration: 48k (quick) / 3M (thorough) (L, header) pairs with offsets concentrated at 0, 1, L-2..L+1, 2^63, u64::MAX and beyond, 1-6 specs, malformed shapes, reached directly, via directory index and via .html fallback. Satisfiable headers must be served exactly (bytes, label, length, order); others must be 416 or self-consistent. One listed known finding (label last = L) is counted and excluded so that the search continues behind it.",
          "Position-dependent file content makes any wrong offset visible; 'valid' is the RFC 7233 ABNF as parsed by the harness.", "DESIGN.md §4 C03"),
  "C04": ("pbt", "grammar-based request mutation (seeded proptest, supervised worker processes) against a strict response parser and a request-line reference model",
@@ -30,7 +30,7 @@ CHECKS = {
  "C08": ("pbt+net", "differential property testing: generated request multisets served concurrently (in-process threads behind a barrier; real binary with backlog / barrier / staggered arrival) vs serially",
          "Exploration: 2,400 (quick) / 60,000 (thorough) multisets of 2-64 requests through K concurrent threads calling Server::process in one process, and 320 / 12,000 multisets against the real binary with 1-16 workers in three arrival shapes; every concurrent response must equal the serial response byte for byte modulo the timestamp value and the line order of form echoes.",
          "Real-thread schedules are sampled: a race needing a window of a few instructions may survive; the request path shares no mutable state except the environment.", "DESIGN.md §4 C08"),
- "C09": ("pbt", "seeded proptest over generated trees; differential GET vs HEAD vs OPTIONS per servable path with a CORS reference model for the default configuration",
+ "C09": ("pbt+net", "seeded proptest over generated trees; differential GET vs HEAD vs OPTIONS per servable path with a CORS reference model for the default configuration",
          "Exploration: 48 (quick) / 2,000 (thorough) generated trees, every servable path x 4 header variants x 2 entry points as GET/HEAD/OPTIONS triples (about 24k requests per quick run); HEAD must equal GET in status and header multiset with an empty body, OPTIONS must be a bodiless 2xx with the predicted preflight grants.",
          "GET's own correctness is C02's; CORS grants are judged for the default allow-all configuration (C11 varies it).", "DESIGN.md §4 C09"),
  "C10": ("pbt", "seeded proptest: header-multiset invariant over every response of the request-mutation campaign",
@@ -89,6 +89,8 @@ m = {
     "kind_free_text": "proptest 1.11 TestRunner (fixed seed from VERIF_SEED, shrinking, no persistence) driving the real rws code compiled in by path; supervised worker processes; explicit oracles (reference models, round-trips, differentials, invariants)"},
    {"name": "net", "path": "harness/src/fw/net.rs", "serves_properties": sorted(k for k, v in CHECKS.items() if "net" in v[0]),
     "kind_free_text": "the real rws binary (release, --cfg rws_verif, overflow checks and debug assertions on) started per case in a generated docroot; loopback client with fault injection (RST, half-sent, stalls), SIGSTOP/SIGCONT to own the acceptor's schedule, /proc thread names and exit status as logical signals"},
+   {"name": "libfuzzer", "path": "fuzz/", "serves_properties": ["C04", "C14", "C16", "C20"],
+    "kind_free_text": "cargo-fuzz 0.13 / libFuzzer targets (ASan, debug assertions) that compile harness/src/fw and harness/src/props by path and call the same oracle functions as the proptest checks (c04::judge_bytes, c14::judge_bytes, c16::eval, c20::eval) on a worker thread named like a pool worker; campaigns with a fixed number of runs per job via tools/fuzz_campaign.sh; triaged findings are committed to corpus/<cNN>/ and replayed by the section 'corpus' of the quick checks"},
    {"name": "shuttle", "path": "sched/", "serves_properties": ["C06", "C07"],
     "kind_free_text": "shuttle 0.9 random and PCT schedulers (seeded) over src/thread_pool/mod.rs compiled with --cfg rws_verif_shuttle; speaks the harness's worker protocol; failing schedules replay from shuttle's schedule string"},
  ],
